@@ -325,7 +325,58 @@ type analysis struct {
 }
 
 func newAnalysis(p *core.Program) *analysis {
+	fillConstValues(p)
 	return &analysis{p: p, panicsCache: map[*types.Func]int{}}
+}
+
+var constValuesFor *core.Program
+
+// fillConstValues collects the module's numeric constants of basic (non-enum) type by name, for canonEffect.
+func fillConstValues(p *core.Program) {
+	if constValuesFor == p {
+		return
+	}
+	constValuesFor = p
+	vals := map[string]string{}
+	amb := map[string]bool{}
+	for _, pkg := range p.Pkgs {
+		sc := pkg.Types.Scope()
+		for _, n := range sc.Names() {
+			c, ok := sc.Lookup(n).(*types.Const)
+			if !ok {
+				continue
+			}
+			b, isBasic := c.Type().(*types.Basic)
+			if !isBasic || b.Info()&types.IsNumeric == 0 || c.Val().Kind() != constant.Int {
+				continue
+			}
+			v := c.Val().ExactString()
+			if old, seen := vals[n]; seen && old != v {
+				amb[n] = true
+			}
+			vals[n] = v
+		}
+		// function-local constants
+		for _, o := range pkg.TypesInfo.Defs {
+			c, ok := o.(*types.Const)
+			if !ok || c.Parent() == sc {
+				continue
+			}
+			b, isBasic := c.Type().(*types.Basic)
+			if !isBasic || b.Info()&types.IsNumeric == 0 || c.Val().Kind() != constant.Int {
+				continue
+			}
+			v := c.Val().ExactString()
+			if old, seen := vals[c.Name()]; seen && old != v {
+				amb[c.Name()] = true
+			}
+			vals[c.Name()] = v
+		}
+	}
+	for n := range amb {
+		delete(vals, n)
+	}
+	constValues = vals
 }
 
 // funcAlwaysPanics: every path through the module function f ends in a panic
